@@ -395,8 +395,9 @@ def gen_usage(rng, i):
     elif kind == "never_factory":
         # a never-compared snapshot whose argument calls a function that is NOT the constructor of the value it returns: its arguments are no fields,
         # nothing in the call is inline-snapshot's to rewrite (the call as a whole is the user's)
-        txt = rng.choice(["make(a=1)", "make(1+0)", "[make(a=1), 0+2]", "{'k': make(a=0+1)}", "DC.make(a=1)", "make_dc(a=[1+1], b=2)"])
+        txt = rng.choice(["make(a=1)", "make(1+0)", "[make(a=1), 0+2]", "{'k': make(a=0+1)}", "DC.make(a=1)", "make_dc(a=[1+1], b=2)", "double(a=1, b=2)", "[double(a=1+0)]"])
         body = ("def make(a):\n    return DC(a=a * 2)\n\n\ndef make_dc(a, b):\n    return DC(a=b, b=a)\n\n\nDC.make = staticmethod(make)\n\n\n"
+                "@dataclass\nclass Scale:\n    factor: int\n\n    def __call__(self, a, b=5):\n        return DC(a=a * self.factor, b=b * self.factor)\n\n\ndouble = Scale(2)      # a callable dataclass INSTANCE: no constructor\n\n\n"
                 f"S = snapshot({txt})\n\n\ndef test_a():\n    pass\n")
         import re as _re
         g.snips += _re.findall(r"(?:DC\.)?make(?:_dc)?\([^()]*\)", txt)
